@@ -141,7 +141,7 @@ theorem C11_ids :
     (∀ w : W, w.clients = [] → (∀ nd ∈ w.devs, nd.2.acts = []) → 0 < w.nextId → IdsFresh w) ∧
     (∀ (w : W) (acc : Nat) (envs : List FdEnv), IdsFresh w → IdsFresh (cliPostPoll w acc envs)) ∧
     (∀ (w : W) (p : PassIn), IdsFresh w → IdsFresh (daemonPass w p).1) ∧
-    (∀ (w : W) (now con soe : Nat), Iso w → Iso (initialConnect w now con soe).1) ∧
+    (∀ (w : W) (now : Nat) (con soe : List Nat), Iso w → Iso (initialConnect w now con soe).1) ∧
     (∀ (w : W) (ps : List PassIn), Iso w → Iso (runPasses w ps)) :=
   -- the last part is a corollary of `C11_ids_runX` (passes that bring no regex answer)
   ⟨fun w hc hq hn => (iso_init w hc hq hn).1, cliPostPoll_ids, daemonPass_ids, initialConnect_iso, Pm.Daemon.TwoRun.runPasses_iso_plain⟩
@@ -252,7 +252,7 @@ example : (cliRec Two.w3 1).map (fun c => ((parseLine Two.w3 c Two.line).2.toBuf
     `cli_post_poll` and by every pass (`Iso`), hence in every reachable state. -/
 theorem C11_result_scope_invariant :
     (∀ w : W, w.clients = [] → (∀ nd ∈ w.devs, nd.2.acts = []) → 0 < w.nextId → Iso w) ∧
-    (∀ (w : W) (now con soe : Nat), Iso w → Iso (initialConnect w now con soe).1) ∧
+    (∀ (w : W) (now : Nat) (con soe : List Nat), Iso w → Iso (initialConnect w now con soe).1) ∧
     (∀ (w : W) (acc : Nat) (envs : List FdEnv), Iso w → Iso (cliPostPoll w acc envs)) ∧
     (∀ (w : W) (p : PassIn), Iso w → Iso (daemonPass w p).1) :=
   ⟨iso_init, initialConnect_iso, cliPostPoll_iso, daemonPass_iso⟩
